@@ -99,6 +99,8 @@ class BGPPeering(BGPFactory):
 
         # reference to the BGPProtocol instance in ESTAB state
         self.estab_protocol = None
+        # the connector of the outstanding connection attempt, if any
+        self.connector = None
 
     def buildProtocol(self, addr):
 
@@ -141,6 +143,10 @@ class BGPPeering(BGPFactory):
         :param reason: connection failed reason
         """
 
+        if connector is not self.connector:
+            # an attempt we aborted ourselves (see stop_connecting)
+            return
+        self.connector = None
         error_msg = "[%s]Client connection failed: %s" % (self.peer_addr, reason.getErrorMessage())
         self.handler.on_connection_failed(self.peer_addr, reason.getErrorMessage())
         LOG.info(error_msg)
@@ -214,6 +220,14 @@ class BGPPeering(BGPFactory):
             import traceback
             LOG.debug(traceback.format_exc())
 
+    def stop_connecting(self):
+
+        """Aborts the outstanding connection attempt, if there is one.
+        """
+        connector, self.connector = self.connector, None
+        if connector is not None and connector.state == 'connecting':
+            connector.stopConnecting()
+
     def set_peer_id(self, bgp_id):
         """
         Should be called when an Open message was received from a peer.
@@ -242,7 +256,8 @@ class BGPPeering(BGPFactory):
 
         if self.fsm.state != bgp_cons.ST_ESTABLISHED:
 
-            connector = reactor.connectTCP(
+            self.stop_connecting()
+            connector = self.connector = reactor.connectTCP(
                 host=self.peer_addr,
                 port=bgp_cons.PORT,
                 factory=self,
